@@ -179,3 +179,16 @@ package mask
 //@     pure
 //@   callee applyMaskMetric(m, e, d)
 //@     preserves Plugin, Config, []Mask
+
+// The leaf callbacks of gatherFieldMasksTree: a leaf that has no mask set yet gets a
+// map allocated for it alone (a set shared between leaves would make every later
+// insertion visible in all of them: other fields would silently be ignored / processed
+// by the later mask).
+
+//@ func (*Plugin).gatherFieldMasksTree$1
+//@   requires n != nil
+//@   ensures old(isnil(n.ignoreMasks)) ==> fresh(n.ignoreMasks)
+
+//@ func (*Plugin).gatherFieldMasksTree$2
+//@   requires n != nil
+//@   ensures old(isnil(n.processMasks)) ==> fresh(n.processMasks)
